@@ -658,6 +658,7 @@ fn run_case(c: &Value, scratch: &std::path::Path, idx: usize) -> Value {
             json!({"r":"numfmt","s":n.render(),"p":p})
         }
         "session" => run_session(c, scratch, idx),
+        "escape" => json!({"r":"esc","out":handlebars::html_escape(c["s"].as_str().unwrap_or(""))}),
         other => json!({"r":"panic","site":format!("runner.unknown_kind {}", other)}),
     }
 }
